@@ -88,6 +88,9 @@ def mutate(rng, spec, _depth=0):
         els = list(props["fss"])
         rng.shuffle(els)
         props["fss"] = frozenset(els)
+        # nested frozensets rebuilt in another insertion order at every level (equal values)
+        props["nfs"] = frozenset(frozenset(rng.sample(list(x), len(x))) for x in rng.sample(list(props["nfs"]), len(props["nfs"])))
+        props["tf"] = tuple(frozenset(rng.sample(list(x), len(x))) for x in props["tf"])
         kind = "fset-order"
     elif k < 0.45 and props:
         name = rng.choice(sorted(props))
@@ -166,7 +169,8 @@ def mutate(rng, spec, _depth=0):
                 kids["z"], kids["a"] = kids["a"], kids["z"]
         kind = "field-swap"
     elif k < 0.9:
-        of = [n for n, v in kids.items() if not isinstance(v, list) and cname in ("Opt", "Names", "FalsyKid", "Mixed") and n != "z"]
+        of = [n for n, v in kids.items() if not isinstance(v, list)
+              and cname in ("Opt", "Names", "FalsyKid", "Mixed", "MLeft", "MRight", "MBoth", "Glue") and n != "z"]
         if of:
             n = rng.choice(of)
             if kids[n] is None:
@@ -271,6 +275,23 @@ def cases(rng: random.Random, tier: str):
             yield Case("same-name-subclass", None, None, True, f"Shade(v={v}) base class vs same-named subclass",
                        oracle_fail="is_equal is True across two different classes (or False within one)" if bad else None,
                        sig="cid|is_equal|same-name-subclass")
+        # two different classes with one module and qualified name (class factory): the second one's extra
+        # comparable property and extra child field are content
+        for _ in range(3):
+            first, second = zoo.same_name_classes()
+            f1 = first(v=1)
+            a1, a2 = second(v=1, w=0), second(v=1, w=1)
+            b1, b2 = second(v=1, k=None), second(v=1, k=zoo.Leaf(v=1))
+            bad = None
+            if a1.content_id == a2.content_id or a1.is_equal(a2):
+                bad = "nodes differing in a comparable property share a content_id / are is_equal"
+            elif b1.content_id == b2.content_id or b1.is_equal(b2):
+                bad = "a missing optional child equals a present one"
+            elif not a1.is_equal(second(v=1, w=0)) or f1.is_equal(a1):
+                bad = "is_equal wrong within / across the two same-named classes"
+            yield Case("same-name-classes", None, None, True, "class factory called twice: Ident(v) then Ident(v, w, k)",
+                       oracle_fail=bad, sig="cid|same-name-classes")
+            del first, second, f1, a1, a2, b1, b2
         # separator-splice attack, with the framing text learned from an observed pre-image
         rec.table.clear()
         probe = zoo.Two(a="QQQ", b="WWW")
